@@ -52,6 +52,16 @@ def build_operand(spec, pre=None):
         j.box()
     Sp.IntegrateShape.polynomial(obj, 1, 0)
     Sp.IntegrateShape.polynomial(obj, 0, 1)
+    # a shape-in-shape and a curve-in-shape question (they look at the boxes of
+    # the sub-shapes) and an intersection of the first boundary with itself
+    probe = Sp.Primitive.square(1, ((vx + F(1, 3)) * f, (vy + F(1, 7)) * f))
+    _ = probe in obj
+    _ = obj in probe
+    _ = probe.jordans[0] in obj
+    for sub in getattr(obj, "subshapes", []):
+        sub.box()
+        for subsub in getattr(sub, "subshapes", []):
+            subsub.box()
     if f != 1:
         obj.scale(1 / f, 1 / f)
     obj.move(-vx, -vy)
